@@ -124,9 +124,30 @@ def readExactR : Nat → Nat → Bytes → DeM Bytes
 
 def readExact (k : Nat) : DeM Bytes := readExactR k k []
 
-/-- `VarIntReader::read_varint` byte by byte with `VarIntProcessor` (DESIGN.md A.1). `buf` is the
-    processor's buffer, `i = buf.length`. -/
+/-- The byte-wise fallback of `ReaderRead::read_varint` (after the repair of D9): read one byte
+    at a time into a 10-byte buffer until a byte has its high bit clear or the buffer is full,
+    then decode with `decode_var`. End of input is an I/O error. -/
 def varintBytewise (t : VarTy) : Nat → Bytes → DeM Int
+  | 0, buf =>
+    match decodeVar t buf with
+    | some (v, _) => pure v
+    | none => DeM.fail .custom
+  | fuel + 1, buf => do
+    let got ← readSome 1
+    match got with
+    | [] => DeM.fail .io
+    | b :: _ =>
+      let buf := buf ++ [b]
+      if b.toNat &&& 0x80 = 0 ∨ buf.length = 10 then
+        match decodeVar t buf with
+        | some (v, _) => pure v
+        | none => DeM.fail .custom
+      else varintBytewise t fuel buf
+
+/-- `VarIntReader::read_varint` of `integer-encoding` (byte by byte with `VarIntProcessor`,
+    DESIGN.md A.1), still used on the `io::Take` inside a big-decimal. `buf` is the processor's
+    buffer. -/
+def varintProcessor (t : VarTy) : Nat → Bytes → DeM Int
   | 0, buf =>
     match decodeVar t buf with
     | some (v, _) => pure v
@@ -147,7 +168,7 @@ def varintBytewise (t : VarTy) : Nat → Bytes → DeM Int
           | none => DeM.fail .io
       | b :: _ =>
         if buf.length ≥ t.maxSize then DeM.fail .io   -- `push`: "Unterminated varint"
-        else varintBytewise t fuel (buf ++ [b])
+        else varintProcessor t fuel (buf ++ [b])
 
 /-- `Read::read_varint` of the back-end. -/
 def readVarint (t : VarTy) : DeM Int := fun s =>
@@ -161,7 +182,7 @@ def readVarint (t : VarTy) : DeM Int := fun s =>
     | (.ok buf, s') =>
       match decodeVar t buf with
       | some (v, k) => consume k s' |>.map (fun _ => .ok v) id
-      | none => varintBytewise t 12 [] s'
+      | none => varintBytewise t 10 [] s'
 
 /-- What `read_slice` hands to the visitor: the bytes and whether they are borrowed from the
     input (`visit_borrowed`). -/
@@ -331,12 +352,12 @@ def readDecimal (ext : DeExt) (mode : DecMode) (hint : DecHint) : DeM Out := do
       -- `(&mut state.reader).take(bytes_len)`
       setLimit (some bytesLen)
       let r ← withLimitCleared (do
-        let l ← varintBytewise .i64 12 []
+        let l ← varintProcessor .i64 12 []
         if l < 0 then DeM.fail .custom else
         let size := l.toNat
         if size > 16 then DeM.fail .custom else
         let b ← readExact size
-        let sc ← varintBytewise .i64 12 []
+        let sc ← varintProcessor .i64 12 []
         if sc < 0 ∨ sc ≥ 4294967296 then DeM.fail .custom else
         let left ← getLimit
         if left ≠ some 0 then DeM.fail .custom else
